@@ -120,6 +120,20 @@ def scenario_for(seed, index, tier):
         sc['writes'] = [['q', t] for _m, t in sc['writes']]
         for l in listeners:
             l['fw'] = []
+    elif rng.random() < 0.08:
+        # an early incoming listener leaves the game: it calls disconnect()
+        # and returns normally - the packet it was shown still goes through
+        # the remaining stages (only IgnorePacket stops them), after which
+        # the networking thread reads nothing more
+        kinds = sorted(set(it[0] for it in hist))
+        sc['early_disc'] = rng.choice(kinds)
+        listeners.insert(rng.randint(0, len(listeners)),
+                         {'id': 90, 'early': True, 'outgoing': False,
+                          'types': ['Packet'], 'ignore': [], 'fw': [],
+                          'disc': sc['early_disc']})
+        sc['writes'] = [['q', t] for _m, t in sc['writes']]
+        for l in listeners:
+            l['fw'] = []
     finish(sc)
     return sc
 
@@ -217,10 +231,16 @@ def reference(sc):
     fw_count = {}
     by_id = {l['id']: l for l in L}
     groups = []
+    ended_by_listener = False
     for key, kind in incoming:
         calls, reacted = dispatch_in(L, kind)
         exp_in += [(lid, key) for lid in calls]
         groups.append([(lid, key) for lid in calls])
+        if any(by_id[lid].get('disc') == kind for lid in calls):
+            # that listener disconnected: this packet completes its stages,
+            # nothing after it is read
+            ended_by_listener = True
+            break
         for lid in calls:
             if kind in by_id[lid].get('fw', ()):
                 n = fw_count.get(lid, 0)
@@ -257,6 +277,7 @@ def reference(sc):
                   and s[1] not in answered]
     return {'incoming': incoming, 'exp_in': exp_in, 'exp_out': exp_out,
             'exp_in_groups': groups,
+            'ended_by_listener': ended_by_listener,
             'expected_play_frames': play_frames,
             'unanswered_plugins': unanswered,
             'compression_reacted': compression_reacted}
@@ -353,6 +374,10 @@ def execute(scenario, tape):
                     fw_n[l['id']] = n + 1
                     conn.write_packet(sb.play.ChatPacket(
                         message='fw-%d-%d' % (l['id'], n)), force=True)
+                if not l['outgoing'] and l.get('disc') == kind and \
+                        not st.get('left'):
+                    st['left'] = True
+                    w.api('disconnect', conn.disconnect)
                 if kind in l['ignore']:
                     raise IgnorePacket
             return cb_
@@ -466,6 +491,12 @@ def check(scenario, w, st, res, ids):
         return
     if kick:
         # the outgoing side is at the mercy of the closed socket
+        return
+    if ref['ended_by_listener']:
+        res.probes['early-listener-disconnected'] = 1
+        ob()
+        if len(st['exits']) != 1:
+            V.append(('C13/exit-callback-count', len(st['exits'])))
         return
     # built-in reaction present/absent (wire effect)
     frames = {}
